@@ -7,10 +7,54 @@ import (
 
 	"github.com/tuneinsight/lattigo/v6/ring"
 
+	"verif/engine"
 	"verif/ref"
 )
 
-const N = 16 // smallest degree accepted by rlwe (MinLogN=4); ring kernels are 8-lane unrolled: 2 blocks
+// The universe of a leaf: ring degree and ring type. Scenarios are built and run under setUniverse(n, ci) (see
+// inUniverse in main.go); workers are single-threaded and leaves sequential, so package state is safe. N=16 is the
+// smallest degree accepted by rlwe (two 8-lane blocks); N=32/64 exercise the unrolled loops over more blocks and the NTT
+// stage loops; CI is the conjugate-invariant ring (X^2N+1 folded, primes ≡ 1 mod 4N, its own NTT).
+var (
+	N  = 16
+	CI = false
+)
+
+func setUniverse(n int, ci bool) { N, CI, leafMaxPrime = n, ci, 0 }
+
+// leafMaxPrime is the largest modulus of any ring built or fetched during the current leaf (reset by setUniverse).
+var leafMaxPrime uint64
+
+// sigCIOverflow is the single signature of one input class: conjugate-invariant ring with odd log2(N) and a modulus
+// above 2^64/10. There SubRing.NTTLazy returns values up to 8q instead of the documented 6q-2 (known finding of C01,
+// C01/ntt/ConjugateInvariant/NTTLazy/range-above-documented-6q-2(below-8q)); callers that add 2q to such a value
+// (ModDownQPtoQNTT, the gadget product, ...) then wrap around 2^64. Every failure of a leaf in that class carries this
+// signature (the class is isolated: the same operations are judged strictly on 60-bit-and-smaller chains in the same
+// universe and on 61-bit chains in every other universe). See FINDINGS.md.
+const sigCIOverflow = "C02/conjugate-invariant/odd-logN/modulus>2^64/10/NTTLazy-range-above-6q-wraps-around-in-callers"
+
+func fail(c *engine.Chooser, sig, format string, args ...interface{}) {
+	if CI && logN()%2 == 1 && leafMaxPrime > (^uint64(0))/10 {
+		sig = sigCIOverflow
+	}
+	c.Fail(sig, format, args...)
+}
+
+func logN() int {
+	l := 0
+	for 1<<l < N {
+		l++
+	}
+	return l
+}
+
+// nthRoot: primes of the universe are ≡ 1 mod 2N (standard ring) or 4N (conjugate-invariant ring).
+func nthRoot() uint64 {
+	if CI {
+		return uint64(4 * N)
+	}
+	return uint64(2 * N)
+}
 
 // chain is one (Q,P) moduli configuration.
 type chain struct {
@@ -23,9 +67,9 @@ func bint(x int64) *big.Int    { return big.NewInt(x) }
 func prod(m []uint64) *big.Int { return ref.Prod(m) }
 
 // nttPrimes: primes ≡ 1 mod 2N.
-func below(bits int, k int) []uint64 { return ref.PrimesNear(uint64(1)<<bits, 2*N, k, true) }
-func above(bits int, k int) []uint64 { return ref.PrimesNear(uint64(1)<<bits, 2*N, k, false) }
-func tinyPrimes(k int) []uint64      { return ref.SmallestPrimes(2*N, k) }
+func below(bits int, k int) []uint64 { return ref.PrimesNear(uint64(1)<<bits, nthRoot(), k, true) }
+func above(bits int, k int) []uint64 { return ref.PrimesNear(uint64(1)<<bits, nthRoot(), k, false) }
+func tinyPrimes(k int) []uint64      { return ref.SmallestPrimes(nthRoot(), k) }
 
 // chains returns the catalogue of maximal chains (5 Q primes, 3 P primes) per prime class. Sub-chains
 // (#Q in 1..5, #P in 0..3) are obtained by levels or by slicing.
@@ -37,7 +81,11 @@ func chains() []chain {
 	b55 := above(55, 2)
 	b45 := below(45, 2)
 	b36 := above(35, 3) // just above a power of two: round(log2 q) < bitlen(q)
+	// size ratios just above 2x and 4x between the dropped / auxiliary prime and a remaining one (the reductions of
+	// (q_l-1)/2 and of x mod q_l modulo a smaller q_i go through different branches there)
+	r29, r31, r32, r33, r34 := below(29, 1), above(31, 1), above(32, 1), above(33, 1), above(34, 2)
 	return []chain{
+		{"ratios", []uint64{m[0], r31[0], r32[0], m[1], r33[0]}, []uint64{r34[0], r29[0], r34[1]}},
 		{"tiny", t[:5], t[5:8]},
 		{"mid30", m[:5], m[5:8]},
 		// largest supported size: every 128-bit accumulation and the float correction at full width
@@ -159,11 +207,20 @@ func nBlocks(vals []*big.Int) int { return (len(vals) + N - 1) / N }
 
 // mustRing builds a ring or panics (harness-side misuse: all catalogue primes are NTT friendly).
 func mustRing(moduli []uint64) *ring.Ring {
-	k := fmt.Sprint(moduli)
+	for _, q := range moduli {
+		if q > leafMaxPrime {
+			leafMaxPrime = q
+		}
+	}
+	k := fmt.Sprint(N, CI, moduli)
 	if r, ok := ringCache[k]; ok {
 		return r
 	}
-	r, err := ring.NewRing(N, moduli)
+	rt := ring.Standard
+	if CI {
+		rt = ring.ConjugateInvariant
+	}
+	r, err := ring.NewRingFromType(N, moduli, ring.Type(rt))
 	if err != nil {
 		panic("c02: NewRing: " + err.Error())
 	}
